@@ -26,6 +26,10 @@ pub struct Case {
     /// multiplex_files per queue when the queues differ (overrides `multiplex`)
     #[serde(default)]
     pub multiplex_per_queue: Option<Vec<u32>>,
+    /// FDT publish mode ObjectsBeingTransferred: no explicit publication, an added object is ready at once
+    /// and every transfer start publishes a new instance from inside read()
+    #[serde(default)]
+    pub obt: bool,
 }
 
 /// object lengths with E=4, B=2: empty, 1 symbol, 2 blocks (4 symbols), 3 blocks (6 symbols)
@@ -56,6 +60,7 @@ pub fn run_case(c: &Case, g: &mut G) -> Option<(String, String)> {
     let r = catch(|| -> Option<(String, String)> {
         let mut sess = SessSpec::basic(OtiSpec::new(Scheme::NoCode, 1424, 64, 0, true));
         sess.interleave = c.interleave;
+        sess.full_fdt = !c.obt;
         let mux = |q: usize| -> u32 { c.multiplex_per_queue.as_ref().map(|v| v[q]).unwrap_or(c.multiplex) };
         sess.queues = (0..c.queues.len()).map(|q| (q as u32, mux(q))).collect();
         // catalogue in add order
@@ -138,7 +143,7 @@ pub fn run_case(c: &Case, g: &mut G) -> Option<(String, String)> {
                         let toi: u128 = t.parse().unwrap();
                         let o = &sys.catalog[*k];
                         let needed = symbols(o.len).max(1);
-                        objs.insert(toi, ObjInfo { queue: o.prio as usize, add_index: add_i, size: o.len, published_at: None, needed, emitted: 0, started: false });
+                        objs.insert(toi, ObjInfo { queue: o.prio as usize, add_index: add_i, size: o.len, published_at: if c.obt { Some(li) } else { None }, needed, emitted: 0, started: false });
                         add_i += 1;
                     }
                 }
@@ -351,12 +356,18 @@ pub fn run(thorough: bool) -> i32 {
                         if scheme_rs && (interleave == 1 || !thorough && multiplex != 2) {
                             continue;
                         }
-                        cases.push(Case { queues: w.clone(), multiplex, interleave, reverse_add, scheme_rs, late: None, multiplex_per_queue: None });
+                        cases.push(Case { queues: w.clone(), multiplex, interleave, reverse_add, scheme_rs, late: None, multiplex_per_queue: None, obt: false });
+                        if !scheme_rs && interleave <= 2 {
+                            cases.push(Case { queues: w.clone(), multiplex, interleave, reverse_add, scheme_rs, late: None, multiplex_per_queue: None, obt: true });
+                        }
                         // one deviation: add+publish one more object at every packet index, into every queue
                         if multiplex <= 2 && interleave <= 2 && !scheme_rs {
                             for i in 0..=(total + 1).min(if thorough { 14 } else { 8 }) {
                                 for q in 0..w.len() {
-                                    cases.push(Case { queues: w.clone(), multiplex, interleave, reverse_add, scheme_rs, late: Some((i, q)), multiplex_per_queue: None });
+                                    cases.push(Case { queues: w.clone(), multiplex, interleave, reverse_add, scheme_rs, late: Some((i, q)), multiplex_per_queue: None, obt: false });
+                                    if w.len() >= 2 && multiplex == 1 && interleave == 1 {
+                                        cases.push(Case { queues: w.clone(), multiplex, interleave, reverse_add, scheme_rs, late: Some((i, q)), multiplex_per_queue: None, obt: true });
+                                    }
                                 }
                             }
                         }
@@ -380,7 +391,7 @@ pub fn run(thorough: bool) -> i32 {
                 if !thorough && interleave == 2 {
                     continue;
                 }
-                cases.push(Case { queues: w.clone(), multiplex: 0, interleave, reverse_add: false, scheme_rs: false, late: None, multiplex_per_queue: Some(v.clone()) });
+                cases.push(Case { queues: w.clone(), multiplex: 0, interleave, reverse_add: false, scheme_rs: false, late: None, multiplex_per_queue: Some(v.clone()), obt: false });
             }
         }
     }
